@@ -7,7 +7,9 @@ import (
 	"encoding/json"
 	"fmt"
 	"os"
+	"strconv"
 	"sync"
+	"time"
 
 	"cosmossdk.io/log"
 
@@ -181,6 +183,8 @@ func explainDiff(orig []byte, got *abci.ResponseFinalizeBlock) string {
 // ReplayRecord re-executes a chain record on a fresh application instance (no probes, no decorated keepers)
 // and returns the first block whose response differs from the recorded one.
 func ReplayRecord(rec *ChainRecord, withQueries bool) (*ReplicaDiff, int, error) {
+	// race-detector processes replay a bounded prefix (the detector costs an order of magnitude)
+	maxBlocks, _ := strconv.Atoi(os.Getenv("VERIF_REPLICA_MAXBLOCKS"))
 	var app interface {
 		InitChain(*abci.RequestInitChain) (*abci.ResponseInitChain, error)
 		FinalizeBlock(*abci.RequestFinalizeBlock) (*abci.ResponseFinalizeBlock, error)
@@ -237,6 +241,7 @@ func ReplayRecord(rec *ChainRecord, withQueries bool) (*ReplicaDiff, int, error)
 					}()
 					queries++
 				}
+				time.Sleep(time.Millisecond)
 			}
 		}()
 	}
@@ -245,6 +250,9 @@ func ReplayRecord(rec *ChainRecord, withQueries bool) (*ReplicaDiff, int, error)
 		qwg.Wait()
 	}()
 	for i, rb := range rec.Reqs {
+		if maxBlocks > 0 && i >= maxBlocks {
+			break
+		}
 		var req abci.RequestFinalizeBlock
 		if err := req.Unmarshal(rb); err != nil {
 			return nil, n, err
